@@ -736,3 +736,27 @@ pub fn many_piece_set(tape: &[u32], n: usize) -> Re {
     }
     Re::Set(items)
 }
+
+/// In every rule set, binds the right context of each context-bearing rule to a rule-set-local
+/// variable `c0`, `c1`, … and writes the context as `$c0`, …: the same names are bound to different
+/// regexes in different rule sets, and the contexts are spelled identically.
+pub fn local_ctx_lets(spec: &mut Spec) {
+    for item in spec.items.iter_mut() {
+        if let Top::RuleSet { items, .. } = item {
+            let mut defs: Vec<Inner> = vec![];
+            for i in items.iter_mut() {
+                if let Inner::Rule(r) = i {
+                    if let Some(c) = &mut r.ctx {
+                        if !c.has_eoi() && !c.has_var() {
+                            let name = format!("c{}", defs.len());
+                            let body = std::mem::replace(c, Re::Var(name.clone()));
+                            defs.push(Inner::Let(name, body));
+                        }
+                    }
+                }
+            }
+            defs.append(items);
+            *items = defs;
+        }
+    }
+}
